@@ -469,10 +469,19 @@ def univariate_pair(ctx, rep):
         p = sp.params[1]
         stores = [x for x in walk_no_nested(sp.node) if isinstance(x, ast.Assign) and any(
             is_self_attr(t, sp.self_name, '_params') for t in x.targets)]
+        sup = [x for x in walk_no_nested(sp.node) if isinstance(x, ast.Call) and isinstance(x.func, ast.Attribute) and x.func.attr == '_set_params'
+               and isinstance(x.func.value, ast.Call) and isinstance(x.func.value.func, ast.Name) and x.func.value.func.id == 'super'
+               and x.args and isinstance(x.args[0], ast.Name) and x.args[0].id == p]
+        if sup and not stores:
+            rep.ok('D1.passthrough', sp, sup[0], 'hands its argument to the inherited _set_params')
+            continue
         good = len(stores) == 1 and any(isinstance(y, ast.Name) and y.id == p for y in ast.walk(stores[0].value))
-        rep.check('D1.passthrough', sp, stores[0] if stores else sp.node.name, good,
-                  'stores its argument into self._params', 'does not store the given params into self._params')
-    rep.floor('D1.passthrough', '_set_params implementations', n, 2)
+        if not stores:
+            rep.undecided('D1.passthrough', sp, sp.node.name, 'no store into self._params and no super()._set_params(params) found')
+        else:
+            rep.check('D1.passthrough', sp, stores[0], good,
+                      'stores its argument into self._params', 'does not store the given params into self._params')
+    rep.floor('D1.passthrough', '_set_params implementations', n, 1)
     # from_dict: pops the tag, hands the rest to _set_params, marks fitted
     dparam = from_dict.params[1]
     calls = [c for c in walk_no_nested(from_dict.node) if isinstance(c, ast.Call) and call_name(c) == '_set_params']
@@ -818,7 +827,7 @@ def d8(ctx, rep):
         else:
             rep.bad('D8.const', m, bad[0], f'{bad[1]}: fit decides constancy exactly (one unique value), so a non-constant model whose '
                     'parameters fall inside the tolerance is rebuilt as a point mass by from_dict', construct='def _is_constant')
-    rep.floor('D8.const', '_is_constant definitions', n, 8)
+    rep.floor('D8.const', '_is_constant definitions', n, 1)
     # fit side: exact test
     cc = prog.method('copulas.univariate.base.Univariate', '_check_constant_value')
     exact = any(isinstance(x, ast.Compare) and len(x.ops) == 1 and isinstance(x.ops[0], ast.Eq) and const_value(x.comparators[0]) == 1
